@@ -244,6 +244,37 @@ func runC01(raw json.RawMessage, w *Writer) {
 	})
 	w.Emit(Ev{"ev": "remarshal", "res": outcome(r2, e1), "twin_res": outcome("ok", e2), "size": size2, "bytes": ints(again), "twin": ints(want2),
 		"proj": projPacket(p), "twin_proj": projPacket(twin)})
+	// the same through MarshalTo: a packet that has been marshalled into a buffer, then gets a LONGER value for an id it
+	// already carries (same number of elements), must marshal like a freshly built packet with that value
+	a, errA := buildPacket(*c.P2)
+	b, errB := buildPacket(*c.P2)
+	if errA != nil || errB != nil {
+		return
+	}
+	ids := a.GetExtensionIDs()
+	if len(ids) == 0 {
+		return
+	}
+	grown := append(cloneBytes(a.GetExtension(ids[0])), 0xD1, 0xD2, 0xD3, 0xD4)
+	var got, want3 []byte
+	var e3, e4 error
+	size3 := -1
+	applied := false
+	r3, _ := guard(func() {
+		_, _ = a.MarshalTo(make([]byte, a.MarshalSize()+8))
+		_, _ = a.Header.MarshalTo(make([]byte, a.MarshalSize()+8))
+		if a.SetExtension(ids[0], grown) != nil || b.SetExtension(ids[0], cloneBytes(grown)) != nil {
+			return
+		}
+		applied = true
+		size3 = a.MarshalSize()
+		got, e3 = a.Marshal()
+		want3, e4 = b.Marshal()
+	})
+	if applied {
+		w.Emit(Ev{"ev": "remarshal", "res": outcome(r3, e3), "twin_res": outcome("ok", e4), "size": size3, "bytes": ints(got), "twin": ints(want3),
+			"proj": projPacket(a), "twin_proj": projPacket(b)})
+	}
 }
 
 // rebuildInPlace turns the existing object into the value j using only the public API.
@@ -329,13 +360,22 @@ func runC04(raw json.RawMessage, w *Writer) {
 	if res != "ok" || merr != nil || len(c.Dsts) == 0 {
 		return
 	}
-	for _, mode := range []string{"same", "fields", "del_first"} {
+	for _, mode := range []string{"same", "fields", "del_first", "trim_payload", "dirty_padding"} {
 		for which := 0; which < 2; which++ {
 			arena := fillBuf(len(ref)+24, 2)
 			copy(arena, ref)
+			if mode == "dirty_padding" {
+				// the received padding octets need not be zero (RFC 3550 says nothing about their value)
+				if !p.Padding || p.PaddingSize < 2 {
+					continue
+				}
+				for i := len(ref) - int(p.PaddingSize); i < len(ref)-1; i++ {
+					arena[i] = 0xAB
+				}
+			}
 			before := cloneBytes(arena)
 			q, twin := &rtp.Packet{}, &rtp.Packet{}
-			if q.Unmarshal(arena[:len(ref)]) != nil || twin.Unmarshal(cloneBytes(ref)) != nil {
+			if q.Unmarshal(arena[:len(ref)]) != nil || twin.Unmarshal(cloneBytes(arena[:len(ref)])) != nil {
 				continue
 			}
 			applicable := true
@@ -350,6 +390,13 @@ func runC04(raw json.RawMessage, w *Writer) {
 					ids := x.GetExtensionIDs()
 					if len(ids) == 0 || x.DelExtension(ids[0]) != nil {
 						applicable = false
+					}
+				case "trim_payload":
+					// the application shortens the payload it was handed (what lies behind it in the buffer is stale data)
+					if len(x.Payload) < 2 {
+						applicable = false
+					} else {
+						x.Payload = x.Payload[:len(x.Payload)/2]
 					}
 				}
 			}
